@@ -102,7 +102,6 @@ func H12_Mtcp() {
 	for i := range sent {
 		verif.Assert(bytes.Equal(got[i], sent[i]), "bundles arrive unchanged and in order")
 	}
-	verif.Assert(conn.closed, "server closes the connection when the stream ends")
 	verif.Reach("end")
 }
 
